@@ -421,33 +421,77 @@ Definition candidates (s : state) : list (action * nat * nat) :=
 
 (* Decide whether a log of invocation/return events is a trace of the LTS: the search inserts the
    linearisation steps, lazily (only when the next event is the return of an operation that has
-   not taken effect yet).  Complete logs only: at the end nothing may be pending. *)
-Fixpoint search (fuel : nat) (s : state) (log : list event) : bool :=
+   not taken effect yet), depth first over the candidate steps, the returning thread's own step
+   first.  States from which the rest of the log is known to be unreachable are remembered
+   (`visited`) so that permutations of independent early steps are not explored twice; the memo and
+   the candidate order only matter for speed and completeness, never for soundness (every step
+   goes through `exec`).  Complete logs only: at the end nothing may be pending. *)
+Definition chan_eqb (a b : chan) : bool :=
+  list_eqb value_eqb (buf a) (buf b) && (cap a =? cap b) && Bool.eqb (closed a) (closed b).
+
+Definition state_eqb (a b : state) : bool :=
+  list_eqb chan_eqb (chs a) (chs b) &&
+  list_eqb (fun x y => (fst x =? fst y) && op_eqb (snd x) (snd y)) (pend a) (pend b) &&
+  Nat.eqb (length (fin a)) (length (fin b)) &&
+  forallb (fun e => match find_t (fst e) (fin b) with
+                    | Some (o, r) => op_eqb (fst (snd e)) o && res_eqb (snd (snd e)) r
+                    | None => false
+                    end) (fin a).
+
+Definition visited := list (nat * state).
+
+Definition seen (n : nat) (s : state) (vis : visited) : bool :=
+  existsb (fun e => Nat.eqb (fst e) n && state_eqb (snd e) s) vis.
+
+Definition cand_by (t : tid) (p : action * nat * nat) : bool :=
+  match fst (fst p) with
+  | ARdv ts tr _ _ => (t =? ts) || (t =? tr)
+  | a => t =? act_tid a
+  end.
+
+Definition order_cands (t : tid) (cs : list (action * nat * nat)) : list (action * nat * nat) :=
+  filter (cand_by t) cs ++ filter (fun p => negb (cand_by t p)) cs.
+
+Fixpoint try_cands (rec : state -> visited -> bool * visited) (s : state) (log : list event)
+                   (cs : list (action * nat * nat)) (vis : visited) : bool * visited :=
+  match cs with
+  | [] => (false, vis)
+  | p :: cs' =>
+      match exec s (LLin (fst (fst p)) (snd (fst p)) (snd p)) with
+      | Some s' =>
+          if consistent s' log then
+            let r := rec s' vis in
+            if fst r then r else try_cands rec s log cs' (snd r)
+          else try_cands rec s log cs' vis
+      | None => try_cands rec s log cs' vis
+      end
+  end.
+
+Fixpoint search (fuel : nat) (s : state) (log : list event) (vis : visited) : bool * visited :=
   match fuel with
-  | O => false
+  | O => (false, vis)
   | S f =>
       match log with
-      | [] => quiescent s
+      | [] => (quiescent s, vis)
       | EInv t o :: rest =>
-          match exec s (LInv t o) with Some s' => search f s' rest | None => false end
+          match exec s (LInv t o) with Some s' => search f s' rest vis | None => (false, vis) end
       | ERes t o r :: rest =>
           match exec s (LRes t o r) with
-          | Some s' => search f s' rest
+          | Some s' => search f s' rest vis
           | None =>
               match find_t t (pend s) with
-              | None => false
+              | None => (false, vis)
               | Some _ =>
-                  existsb (fun p => match exec s (LLin (fst (fst p)) (snd (fst p)) (snd p)) with
-                                    | Some s' => consistent s' log && search f s' log
-                                    | None => false
-                                    end) (candidates s)
+                  if seen (length log) s vis then (false, vis) else
+                  let r := try_cands (fun s' v => search f s' log v) s log (order_cands t (candidates s)) vis in
+                  if fst r then r else (false, (length log, s) :: snd r)
               end
           end
       end
   end.
 
 Definition trace_ok (caps : list Z) (log : list event) : bool :=
-  search (2 * length log + 2) (init caps) log.
+  fst (search (2 * length log + 2) (init caps) log []).
 
 (* ---------- log-level views (no search involved) ---------- *)
 Definition opt_list {A} (o : option A) : list A := match o with Some x => [x] | None => [] end.
